@@ -388,6 +388,22 @@ func (t *Tables) sibling(rt *rapid.T, e Term, excPool []string, label string) Te
 	return t.MakeLicTerm(e.Base, form, cv, exc, 0, " ", " ")
 }
 
+// PadAllowed makes a long allowed list (16-48 entries) out of a short one: unrelated listed ids are
+// inserted at generated positions (implementations may switch strategy for long lists).
+func (t *Tables) PadAllowed(rt *rapid.T, list []Term) []Term {
+	target := rapid.IntRange(16, 48).Draw(rt, "padTo")
+	out := append([]Term{}, list...)
+	for i := 0; len(out) < target; i++ {
+		id := rapid.SampledFrom(t.Active).Draw(rt, fmt.Sprintf("pad%d", i))
+		if !idShaped(id) || len(t.Positions(id)) > 0 || strings.HasSuffix(id, "-only") || strings.HasSuffix(id, "-or-later") {
+			id = t.UnrelatedIDs()[i%len(t.UnrelatedIDs())]
+		}
+		pos := rapid.IntRange(0, len(out)).Draw(rt, fmt.Sprintf("padPos%d", i))
+		out = append(append(append([]Term{}, out[:pos]...), t.MakeLicTerm(id, "", 0, "", 0, "", "")), out[pos:]...)
+	}
+	return out
+}
+
 func (t *Tables) withExc(term Term, exc string, cv uint32) Term {
 	if term.Kind != "lic" || term.Exc != "" {
 		return term
